@@ -35,6 +35,10 @@ def _resolve_names(c, module):
     return c
 
 
+# the value an optional trailing operand stands for when it is left out: {function: {operand position: value}}
+DEFN_DEFAULTS = {'round': {1: 0}, 'root': {1: 1}}
+
+
 def rule_defn(P) -> RuleResult:
     res = RuleResult('R-DEFN')
     res.exhaustive = True
@@ -42,9 +46,9 @@ def rule_defn(P) -> RuleResult:
     m = P.module('beanquery.query_env')
     seen = set()
     for f in reg.funcs:
-        if f.kind != 'function' or f.impl is None or f.name not in DEFINITIONS or (f.name, f.impl.fq) in seen:
+        if f.kind != 'function' or f.impl is None or f.name not in DEFINITIONS or (f.name, f.impl.fq, len(f.intypes)) in seen:
             continue
-        seen.add((f.name, f.impl.fq))
+        seen.add((f.name, f.impl.fq, len(f.intypes)))
         fi = f.impl
         off = 1 if (f.pass_context or f.pass_row) else 0
         params = fi.params[off:]
@@ -56,6 +60,22 @@ def rule_defn(P) -> RuleResult:
         # the definition, interpreted in the same module
         dnode = ast.parse(f'def _definition({", ".join(f"p{i}" for i in range(6))}):\n    return {DEFINITIONS[f.name]}').body[0]
         denv = {f'p{i}': _arg(i) for i in range(6)}
+        # a registration with fewer operands than the implementation has parameters leaves the last ones to their defaults: the
+        # function called that way is the definition with the documented value in that place (round(x) is round(x, 0))
+        n_given = len(f.intypes)
+        if n_given < len(params):
+            defaults = fi.node.args.defaults
+            for j in range(n_given, len(params)):
+                k = j + off - (len(fi.params) - len(defaults))
+                if f.name not in DEFN_DEFAULTS or j not in DEFN_DEFAULTS[f.name]:
+                    raise AnalysisError(f'{fi.fq}: {f.name}() is registered with {n_given} operand(s); no documented value on record for '
+                                        f'the omitted parameter `{params[j]}`')
+                if k < 0 or not isinstance(defaults[k], ast.Constant):
+                    res.fail(f'function:{f.name}', 'defn:changed', f'{f.name}() is registered with {n_given} operand(s) but `{params[j]}` has '
+                             f'no constant default', loc(fi))
+                    continue
+                env[params[j]] = defaults[k].value
+                denv[f'p{j}'] = DEFN_DEFAULTS[f.name][j]
         denv['__fi__'] = fi
         dpaths = Engine(P).paths(dnode, denv)
         want = _resolve_names(canon(dpaths[0].value), fi.module)
@@ -70,7 +90,7 @@ def rule_defn(P) -> RuleResult:
                 bad = p
                 break
         if bad is None:
-            res.ok({'function': f.name, 'definition': DEFINITIONS[f.name], 'paths': len(paths)})
+            res.ok({'function': f.name, 'operands': n_given, 'definition': DEFINITIONS[f.name], 'paths': len(paths)})
         else:
             cond = f' when `{" and ".join(("" if o else "not ") + show(t)[:50] for t, o in bad.decisions)}`' if bad.decisions else ''
             res.fail(construct, 'defn:changed', f'{f.name}({", ".join(params)}) is defined as `{DEFINITIONS[f.name]}` '
@@ -97,7 +117,7 @@ REFERENCES = {
 }
 
 
-_PLUMBING = ('next', 'iter', 'list', 'tuple', 'any', 'all', 'bool', 'len', 'isinstance', 'filter', 'map')     # how values are walked, not what is computed
+_PLUMBING = ('next', 'iter', 'list', 'tuple', 'any', 'all', 'bool', 'len', 'isinstance', 'filter', 'map', 're.compile')     # how values are walked, not what is computed
 
 
 def _uses(P, fn, env, module):
@@ -270,6 +290,25 @@ def rule_castdef(P) -> RuleResult:
             res.ok({'function': 'date(y, m, d)', 'value': 'datetime.date(y, m, d)'})
         else:
             res.fail('function:date(int, int, int)', 'castdef:date3', f'date(y, m, d) must be datetime.date(y, m, d); returns {vals}'[:300], loc(fi))
+    # int(x) / decimal(x): the Python conversion of the value - truncation toward zero for int() of a decimal, the exact value
+    # for decimal() - or NULL where the conversion does not exist; whichever implementation is registered for an operand type
+    for name, ctor in (('int', 'int'), ('decimal', 'decimal.Decimal')):
+        fs = impls(name, 1)
+        if not fs:
+            raise AnalysisError(f'anchor vanished: the {name}() cast')
+        for f in fs:
+            fi = f.impl
+            vals = []
+            for p in Engine(P).paths(fi, {fi.params[0]: X}):
+                if p.outcome == 'return':
+                    vals.append(_resolve_names(canon(p.value), fi.module))
+            conv = ('call', ctor, (X,), ())
+            construct = f'function:{name}:{fi.name}'
+            if conv in vals and all(v == conv or v is None for v in vals):
+                res.ok({'function': f'{name}(x) [{fi.name}]', 'value': f'{ctor}(x), NULL where that fails'})
+            else:
+                res.fail(construct, f'castdef:{name}', f'{name}(x) must be {ctor}(x) - the converted value - or NULL where the conversion '
+                         f'does not exist; the implementation {fi.name} returns {vals}'[:400], loc(fi))
     _account_types_cases(P, res, ('possign', 'account_sortkey'))
     return res
 
